@@ -19,6 +19,7 @@ pub struct C02 {
     n_gen: u64,
     n_comp: u64,
     n_shape: u64,
+    n_samples: u64,
 }
 
 fn first_diff(a: &[u8], b: &[u8]) -> usize {
@@ -37,6 +38,7 @@ impl C02 {
             n_gen: scaled(tier.pick(15_000, 600_000), scale),
             n_comp: scaled(tier.pick(9_000, 400_000), scale),
             n_shape: scaled(tier.pick(160, 3_200), scale),
+            n_samples: tier.pick(16, 3 * streams::repo_sample_count()),
         }
     }
 
@@ -244,7 +246,7 @@ fn kind_of<T>(o: &Out<T>) -> String {
 
 impl Monitor for C02 {
     fn ncases(&self) -> u64 {
-        self.n_gen + self.n_comp + self.n_shape
+        self.n_gen + self.n_comp + self.n_shape + self.n_samples
     }
 
     fn run_case(&mut self, k: u64, ctx: &mut Ctx) {
@@ -262,6 +264,17 @@ impl Monitor for C02 {
             let mut r = Rng::derive(self.seed, 0x0202, k - self.n_gen, 0);
             let s = streams::compressor_stream(&mut r, max_plain, None);
             (format!("{}: {}", streams::SOURCE_NAMES[s.source], s.recipe), s.bytes, r)
+        } else if k >= self.n_gen + self.n_comp + self.n_shape {
+            let idx = k - self.n_gen - self.n_comp - self.n_shape;
+            let mut r = Rng::derive(self.seed, 0x0204, idx, 0);
+            let pick = if self.tier == Tier::Quick { r.below(1000) } else { idx };
+            match streams::repo_sample(pick) {
+                Some((name, b)) => (format!("repo sample: {}", name), b, r),
+                None => {
+                    ctx.count("repo_samples_missing");
+                    return;
+                }
+            }
         } else {
             let idx = k - self.n_gen - self.n_comp;
             let mut r = Rng::derive(self.seed, 0x0203, idx, 0);
